@@ -127,6 +127,34 @@ static void build_observers() {
   // (contains_integer_point is not used: its branch-and-bound needs gigabytes / minutes on some depth-4 histories in every build)
   { Obs o; o.name = "constrains(B)"; o.f = [](C_Polyhedron& p) { return std::string(p.constrains(Variable(1)) ? "1" : "0"); }; OBS.push_back(o); }
   { Obs o; o.name = "bounds_from_above(2A-3B)"; o.f = [](C_Polyhedron& p) { return std::string(p.bounds_from_above(le(2, -3, 0)) ? "1" : "0"); }; OBS.push_back(o); }
+  // the simplex solver on the same constraints (continuous relaxation only: no branch and bound)
+  { Obs o; o.name = "MIP_Problem::solve(max A+2B)"; o.f = [](C_Polyhedron& p) {
+      MIP_Problem mip(2, p.constraints(), le(1, 2, 0), MAXIMIZATION);
+      MIP_Problem_Status st = mip.solve();
+      if (st == UNFEASIBLE_MIP_PROBLEM) return std::string("unfeasible");
+      if (st == UNBOUNDED_MIP_PROBLEM) return std::string("unbounded");
+      Coefficient n, d; mip.optimal_value(n, d); return cs(n) + "/" + cs(d); }; OBS.push_back(o); }
+  { Obs o; o.name = "MIP_Problem::solve(min 11A-5B+3)"; o.f = [](C_Polyhedron& p) {
+      MIP_Problem mip(2, p.constraints(), le(11, -5, 3), MINIMIZATION);
+      MIP_Problem_Status st = mip.solve();
+      if (st == UNFEASIBLE_MIP_PROBLEM) return std::string("unfeasible");
+      if (st == UNBOUNDED_MIP_PROBLEM) return std::string("unbounded");
+      Coefficient n, d; mip.optimal_value(n, d); return cs(n) + "/" + cs(d); }; OBS.push_back(o); }
+  // a grid built from the equalities of the polyhedron plus two fixed congruences
+  { Obs o; o.name = "Grid(equalities + 2 congruences)"; o.f = [](C_Polyhedron& p) {
+      Grid g(2);
+      const Constraint_System& s = p.minimized_constraints();
+      for (Constraint_System::const_iterator i = s.begin(); i != s.end(); ++i) if (i->is_equality()) g.add_constraint(*i);
+      g.add_congruence((le(3, 5, 1) %= 0) / 7); g.add_congruence((le(1, -1, 0) %= 0) / 2);
+      if (g.is_empty()) return std::string("empty");
+      const Congruence_System& c = g.minimized_congruences(); std::vector<std::string> v;
+      for (Congruence_System::const_iterator i = c.begin(); i != c.end(); ++i)
+        v.push_back(cs(i->coefficient(Variable(0))) + "," + cs(i->coefficient(Variable(1))) + "," + cs(i->inhomogeneous_term()) + "%" + cs(i->modulus()));
+      std::string r = join_sorted(v);
+      const Grid_Generator_System& gg = g.minimized_grid_generators(); std::vector<std::string> w;
+      for (Grid_Generator_System::const_iterator i = gg.begin(); i != gg.end(); ++i)
+        w.push_back(std::string(i->is_point() ? "p" : i->is_parameter() ? "q" : "l") + cs(i->coefficient(Variable(0))) + "," + cs(i->coefficient(Variable(1))) + (i->is_line() ? std::string() : "/" + cs(i->divisor())));
+      return r + " | " + join_sorted(w); }; OBS.push_back(o); }
   { Obs o; o.name = "contains(box[1,2]x[0,1])"; o.f = [](C_Polyhedron& p) { C_Polyhedron q = box(1, 2, 0, 1); return std::string(p.contains(q) ? "1" : "0"); }; OBS.push_back(o); }
 }
 
